@@ -33,6 +33,12 @@ func NewChunkWithID(id ChunkID, b []byte, skipVerify bool) (*Chunk, error) {
 		c.idCalculated = true // Pretend this was calculated. No need to re-calc later
 		return c, nil
 	}
+	if _, err := c.Data(); err != nil {
+		// No plain data can be produced, so it can't match any ID. Without this
+		// an undecodable object would pass for the all-zero ID, which is what
+		// ID() returns when the data is unavailable.
+		return nil, ChunkInvalid{ID: id, Sum: ChunkID{}}
+	}
 	sum := c.ID()
 	if sum != id {
 		return nil, ChunkInvalid{ID: id, Sum: sum}
@@ -48,6 +54,12 @@ func NewChunkFromStorage(id ChunkID, b []byte, modifiers Converters, skipVerify 
 	if skipVerify {
 		c.idCalculated = true // Pretend this was calculated. No need to re-calc later
 		return c, nil
+	}
+	if _, err := c.Data(); err != nil {
+		// No plain data can be produced, so it can't match any ID. Without this
+		// an undecodable object would pass for the all-zero ID, which is what
+		// ID() returns when the data is unavailable.
+		return nil, ChunkInvalid{ID: id, Sum: ChunkID{}}
 	}
 	sum := c.ID()
 	if sum != id {
